@@ -306,7 +306,10 @@ KF = {
     # flattened field: the schema is an allOf of two members that each carry additionalProperties: false, so each rejects the keys of the other
     "KF09": lambda c: "aggregate-flatten" in c["features"] and (_why(c, "accepted-by-deserialize") or _why(c, "serialized-value-does-not-validate")),
     # draft-07 output of a class with a flattened field keeps `unevaluatedProperties` (a 2019-09 keyword)
-    "KF46": lambda c: "aggregate-flatten" in c["features"] and c.get("version") == "DRAFT_7" and c["why"][0] == "keyword-outside-the-target-vocabulary:unevaluatedProperties",
+    # (so a draft-07 validator, which ignores the keyword, accepts an instance with an extra key that the 2020-12 schema rejects)
+    "KF46": lambda c: "aggregate-flatten" in c["features"] and c.get("version") == "DRAFT_7" and
+                      (c["why"][0] == "keyword-outside-the-target-vocabulary:unevaluatedProperties" or
+                       (c["why"] == ["older-dialect-and-2020-12-schema-disagree-on-an-instance"] and "unevaluatedProperties" in json.dumps(c.get("real")))),
     # constraints on the float image of a large integer (checked after float(int) has rounded)
     "KF41": lambda c: c.get("k_ok") is not False and _f(c, "cfloat") and has_big_int(c["d"]),
 }
